@@ -220,7 +220,7 @@ def rule_spelling(ck, F, X):
                                          f"envelope struct `{gname}`: member type `{og.nf_str(nf)[:90]}` is spelled {ch} but generated structs are "
                                          f"defined as {list(def_chain)}(xml name): does not compile for element names that are not already in that case",
                                          fn="envelope")
-        ck.floor("R4", "envelope member type references", n_env, 4)
+        ck.floor("R4", "envelope member type references", n_env, 2)
     # (b) module names: definition vs references
     mod_defs = [ev for ev in stream if ev.kind == "emit" and RE_DEF.match(ev.skeleton()) and RE_DEF.match(ev.skeleton()).group(1) == "mod"]
     for ev in mod_defs:
@@ -280,7 +280,7 @@ def rule_spelling(ck, F, X):
                                 ck.violation("R4", f"envelope-ref:{fnshort}:{lit}", ev.site,
                                              f"{fnshort} refers to `{{op}}{lit}` with the operation name spelled {list(ch)}, but the envelope struct is defined "
                                              f"with {list(espell)}: operations whose name is not already in that case produce code that does not compile", fn=fnshort)
-    ck.floor("R4", "envelope name references", n, 4)
+    ck.floor("R4", "envelope name references", n, 2)
 
 
 # ---- R6 -------------------------------------------------------------------------------------------
@@ -358,7 +358,7 @@ def rule_injectivity(ck, F, X):
                          f"does not depend on that element: two such elements produce two items with the same name (E0428)", fn=fnshort)
         else:
             ck.ok("R6", f"{kind}:{_name_key(name)}", ev.site, f"name depends on all {len(star_iters)} enclosing loop element(s)", fn=fnshort)
-    ck.floor("R6", "definition templates under loops", n, 6)
+    ck.floor("R6", "definition templates under loops", n, 3)
 
 
 def rule_member_separators(ck, F, X):
@@ -382,7 +382,7 @@ def rule_member_separators(ck, F, X):
                                  f"comma: the emitted struct does not parse", fn=fn.rsplit("::", 1)[-1])
                 else:
                     ck.ok("R3a", key, ev.site, "member template is separated from what can follow it", fn=fn.rsplit("::", 1)[-1])
-    ck.floor("R3a", "struct member templates", n, 8)
+    ck.floor("R3a", "struct member templates", n, 4)
 
 
 def _exclusive(c1, c2):
@@ -397,7 +397,7 @@ def rule_skeletons(ck, F):
     res = e4.run(F, ck.tier)
     ck.count("R3:samples", res["samples"])
     ck.count("R3:template instances type-checked", res["instances"])
-    ck.floor("R3", "emit sites covered by a type-checked derivation", res["covered"], 100)
+    ck.floor("R3", "emit sites covered by a type-checked derivation", res["covered"], 50)
     for ev in res["uncovered"]:
         ck.undecided("R3", f"uncovered:{ev.fn.rsplit('::', 1)[-1]}:{_skel_key(ev.skeleton())}", ev.site,
                      f"template `{ev.skeleton().strip()[:70]}` is not reached by any sampled derivation")
